@@ -37,10 +37,50 @@ def _model_chunk(lines):
     return out
 
 
+class _OpTimeout(Exception):
+    pass
+
+
+def _worker_init():
+    """resource fences for the REAL code: a runaway operation must show up as an error of that
+    operation (which the oracles judge), not as a crash of the harness"""
+    import resource
+    lim = int(os.environ.get("VERIF_OP_MEM_GB", "6")) * (1 << 30)
+    try:
+        resource.setrlimit(resource.RLIMIT_AS, (lim, lim))
+    except Exception:
+        pass
+
+
 def _real_chunk(lines):
+    import signal
     sys.path.insert(0, HERE)
     import realops
-    return [realops.real_exec(l) for l in lines]
+
+    def _alarm(*a):
+        raise _OpTimeout()
+    out = []
+    blown = 0
+    old = signal.signal(signal.SIGALRM, _alarm)
+    try:
+        for l in lines:
+            if blown >= 3:
+                out.append("SKIP")      # circuit breaker: enough runaway operations seen in this chunk
+                continue
+            signal.alarm(int(os.environ.get("VERIF_OP_TIMEOUT_S", "8")))
+            try:
+                out.append(realops.real_exec(l))
+            except _OpTimeout:
+                out.append("ERR Timeout")
+                blown += 1
+            except MemoryError:
+                out.append("ERR MemoryError")
+                blown += 1
+            finally:
+                signal.alarm(0)
+    finally:
+        signal.signal(signal.SIGALRM, old)
+    return out
 
 
 def _chunks(lines, n):
@@ -54,7 +94,7 @@ _pool = None
 def pool():
     global _pool
     if _pool is None:
-        _pool = ProcessPoolExecutor(max_workers=NCPU)
+        _pool = ProcessPoolExecutor(max_workers=NCPU, initializer=_worker_init)
     return _pool
 
 
@@ -70,9 +110,7 @@ def run_model(lines):
 def run_real(lines):
     if not lines:
         return []
-    if len(lines) < 200:
-        return _real_chunk(lines)
-    outs = list(pool().map(_real_chunk, _chunks(lines, NCPU * 4)))
+    outs = list(pool().map(_real_chunk, _chunks(lines, NCPU * 4 if len(lines) >= 200 else 1)))
     return [x for o in outs for x in o]
 
 
@@ -86,5 +124,5 @@ def compare(lines):
     """returns (real_outputs, model_outputs, disagreements[(idx, line, real, model)])"""
     real = run_real(lines)
     model = run_model(lines)
-    dis = [(i, lines[i], real[i], model[i]) for i in range(len(lines)) if real[i] != strip_model_only(model[i])]
+    dis = [(i, lines[i], real[i], model[i]) for i in range(len(lines)) if real[i] != "SKIP" and real[i] != strip_model_only(model[i])]
     return real, model, dis
